@@ -40,6 +40,22 @@ def cases(tier, seed):
             continue
         for rep in ("sympy", "csr"):
             out.append(dict(st, repr=rep, vset=0, total=3))
+    # degeneracy-threshold families (float representations only):
+    #  (a) a fully diagonalised block sitting at a large common offset (gaps >= 1, |E| = 2e5: distinct levels)
+    #  (b) degenerate levels given with rounding noise (equal within atol but not bit-identical)
+    for sizes in ((3,), (2, 2), (1, 3), (2, 1), (1, 2)):
+        nb = len(sizes)
+        off = lattice.offsets(sizes)
+        for E in lattice.level_patterns(sizes):
+            for rep in ("dense", "csr"):
+                E2 = [[e[0] + (200000 if a >= off[nb - 1] else 0), 0] for a, e in enumerate(E)]
+                out.append(dict(sizes=list(sizes), E=E2, k=1, support=[[1]], pattern="dense", fd=[nb - 1], mask=None,
+                                hermitian=True, repr=rep, vset=0, total=3))
+                if len({tuple(e) for e in E}) < len(E):
+                    E3 = [[e[0] + 3, 0] for e in E]
+                    for fd in ([nb - 1], list(range(nb))):
+                        out.append(dict(sizes=list(sizes), E=E3, k=1, support=[[1]], pattern="dense", fd=fd, mask=None,
+                                        hermitian=True, repr=rep, vset=0, total=3, noise=True))
     # every admissible symmetric mask on each block in turn
     for st in lattice.mask_structures(3 if tier == "quick" else 4, hermitian=True):
         for rep in ("sympy", "dense", "csr"):
